@@ -1,0 +1,45 @@
+//go:build verif
+
+// Package witness re-exports the internal witness packages to code outside this
+// module's internal tree (verification harness only; build tag "verif").
+package witness
+
+import (
+	"github.com/google/certificate-transparency-go/internal/witness/api"
+	"github.com/google/certificate-transparency-go/internal/witness/cmd/witness/verifexport"
+	"github.com/google/certificate-transparency-go/internal/witness/verifier"
+)
+
+// Witness is the witness implementation.
+type Witness = verifexport.Witness
+
+// Opts are the witness options.
+type Opts = verifexport.Opts
+
+// Server is the witness HTTP server.
+type Server = verifexport.Server
+
+// CosignedSTH is the witness API's cosigned tree head.
+type CosignedSTH = api.CosignedSTH
+
+// UpdateRequest is the witness API's update request body.
+type UpdateRequest = api.UpdateRequest
+
+// WitnessVerifier verifies cosignatures.
+type WitnessVerifier = verifier.WitnessVerifier
+
+// New creates a witness.
+var New = verifexport.New
+
+// NewServer creates the HTTP server wrapping a witness.
+var NewServer = verifexport.NewServer
+
+// NewWitnessVerifier creates a cosignature verifier.
+var NewWitnessVerifier = verifier.NewWitnessVerifier
+
+// API path constants.
+const (
+	HTTPGetSTH  = api.HTTPGetSTH
+	HTTPUpdate  = api.HTTPUpdate
+	HTTPGetLogs = api.HTTPGetLogs
+)
